@@ -898,6 +898,57 @@ def ob_locate(et, how, seed):
     return Verdict(DISCHARGED, backend="native gmsh mesh", detail=f"err {r['err']:.1e}")
 
 
+def _native_locate_dense(et, organised):
+    """finer box meshes: every midpoint of a pair of vertices of an element (edges and, for quadrangles / hexahedra / prisms, diagonals), every element centre and every
+    node, queried ONE AT A TIME and all at once: a linear field is reproduced."""
+    from EasyFEA import ElemType
+    from EasyFEA.Geoms import Domain, Point
+    dom = Domain(Point(), Point(1, 1), 0.25)
+    dim = _dim(et)
+    if dim == 2:
+        mesh = dom.Mesh_2D([], ElemType[et], isOrganised=organised)
+    else:
+        mesh = dom.Mesh_Extrude([], [0, 0, 1], [4], ElemType[et], isOrganised=organised)
+    co = np.asarray(mesh.coord)
+    g = mesh.groupElem
+    nv = {"TRI": 3, "QUAD": 4, "TETRA": 4, "HEXA": 8, "PRISM": 6}["".join(ch for ch in et if not ch.isdigit())]
+    con = np.asarray(g.connect)[:, :nv]
+    pts = set()
+    for row in con:
+        P = co[row]
+        pts.add(tuple(np.round(P.mean(0), 12)))
+        for i in range(nv):
+            for j in range(i + 1, nv):
+                pts.add(tuple(np.round((P[i] + P[j]) / 2, 12)))
+    pts = np.array(sorted(pts))
+    rng = np.random.default_rng(2)
+    if len(pts) > 350:
+        pts = pts[rng.choice(len(pts), 350, replace=False)]
+    f = lambda X_: 1 + 2 * X_[:, 0] - 3 * X_[:, 1] + 0.5 * X_[:, 2]
+    u = f(co)
+    want = f(pts)
+    single = np.array([float(np.ravel(mesh.Evaluate_dofsValues_at_coordinates(p_[None, :], u))[0]) for p_ in pts])
+    batch = np.ravel(mesh.Evaluate_dofsValues_at_coordinates(pts, u))
+    # random interior points, in one batch
+    rp = np.zeros((800, 3))
+    rp[:, :dim] = rng.uniform(0.01, 0.99, size=(800, dim))
+    rb = np.ravel(mesh.Evaluate_dofsValues_at_coordinates(rp, u))
+    er = np.abs(rb - f(rp))
+    es, eb = np.abs(single - want), np.concatenate([np.abs(batch - want), er])
+    k = int(np.argmax(es))
+    return dict(nq=int(len(pts)), Ne=int(g.Ne), single_wrong=int((es > 1e-6).sum()), batch_wrong=int((eb > 1e-6).sum()), worst_single=float(es.max()), worst_batch=float(eb.max()),
+                worst_point=pts[k].tolist(), got=float(single[k]), expected=float(want[k]))
+
+
+def ob_locate_dense(et, organised):
+    r = _native_locate_dense(et, organised)
+    if r["single_wrong"] or r["batch_wrong"]:
+        raise Refuted(f"{et} box mesh ({'structured' if organised else 'unstructured'}, {r['Ne']} elements): a linear nodal field evaluated at {r['nq']} points (edge / diagonal midpoints, element centres) is wrong "
+                      f"at {r['single_wrong']} points queried one at a time and {r['batch_wrong']} queried together; e.g. at {r['worst_point']} the value is {r['got']:.6g}, expected {r['expected']:.6g}",
+                      cex=dict(elemType=et, organised=organised, point=r["worst_point"]), signature=f"locate:dense:{et}", replay=dict(confirmed=True, **r))
+    return Verdict(DISCHARGED, backend="native gmsh mesh", detail=f"{r['nq']} points, worst {max(r['worst_single'], r['worst_batch']):.1e}")
+
+
 def ob_locate_distorted(et):
     """Hand-built non-parallelogram QUAD / planar-faced non-parallelepiped HEXA patches: polynomial reproduction at images of reference points."""
     rng = np.random.default_rng(5)
@@ -1091,6 +1142,10 @@ def build(tier, seed):
             obs.append(Ob(f"C08.locate.{et}.{how}", ob_locate, (et, how, 3), "X", (f"{GE}::_GroupElem._Get_Mapping", f"{GE}::_GroupElem.Get_pointsInElem", "EasyFEA/FEM/_mesh.py::Mesh.Evaluate_dofsValues_at_coordinates"),
                           bound="one gmsh mesh of a non-parallelogram polygon, 24 queries", clause="polynomial of the element order reproduced (1e-6) at interior / edge / node queries, batch and single",
                           timeout=1200))
+    for et, organised in (("TETRA4", True), ("TETRA4", False), ("TRI3", False), ("QUAD4", True), ("HEXA8", True), ("PRISM6", True)) + ((("TETRA10", True), ("TRI6", False), ("PRISM6", False)) if thorough else ()):
+        obs.append(Ob(f"C08.locate.dense.{et}.{'structured' if organised else 'unstructured'}", ob_locate_dense, (et, organised), "X", (f"{GE}::_GroupElem._Get_nearby_elements", f"{GE}::_GroupElem._Get_Mapping"),
+                      bound="one box mesh (64-800 elements), up to 350 special query points + 800 random interior points", timeout=1200,
+                      clause="points on edges / diagonals / element centres, queried singly and in a batch, are located and a linear field is reproduced (1e-6)"))
     for et in ("QUAD4", "QUAD8", "QUAD9", "HEXA8") + (("HEXA20", "HEXA27") if thorough else ()):
         obs.append(Ob(f"C08.locate.distorted.{et}", ob_locate_distorted, (et,), "X", (f"{GE}::_GroupElem._Get_Mapping",), bound="2-element distorted patch, both orientations",
                       clause="inverse isoparametric map on non-parallelogram elements", timeout=1200))
